@@ -291,6 +291,37 @@ func c01Close(c *core.Ctx, sets map[string]*types.Var) {
 						// the IE argument is built from the iteration key
 						if derivesFromNextKey(core.CallArgs(ci)[0], nx, 0) {
 							called = true
+							// every iteration reaches the call: no path from the loop body's entry back to the
+							// loop header (continue) or out of the loop avoids it
+							hdr := nx.Block()
+							var body *ssa.BasicBlock
+							if iff, isIf := hdr.Instrs[len(hdr.Instrs)-1].(*ssa.If); isIf {
+								body = iff.Block().Succs[0]
+							}
+							skips := false
+							if body != nil {
+								cb := ci.(ssa.Instruction).Block()
+								seen := map[*ssa.BasicBlock]bool{}
+								stack := []*ssa.BasicBlock{body}
+								for len(stack) > 0 {
+									b := stack[len(stack)-1]
+									stack = stack[:len(stack)-1]
+									if seen[b] || b == cb {
+										continue
+									}
+									seen[b] = true
+									if b == hdr {
+										skips = true
+										break
+									}
+									if _, isRet := b.Instrs[len(b.Instrs)-1].(*ssa.Return); isRet {
+										skips = true
+										break
+									}
+									stack = append(stack, b.Succs...)
+								}
+							}
+							c.Check("R5", "close-removes-every:"+kind, ci.Pos(), body != nil && !skips, "no iteration of the loop over "+set.Name()+" skips the Remove"+kind+" call")
 						}
 					}
 				}
@@ -474,6 +505,39 @@ func c01EndPaths(c *core.Ctx, rule string, withR7 bool) {
 			}
 		}
 		c.Check(rule, "deletion-deletes", fn.Pos(), good, "the deletion handler deletes the looked-up session through its own node, with the looked-up SEID, before the accepted response")
+		// on every path: the only way out of the handler without the deletion is the failed lookup
+		var dels []ssa.Instruction
+		for _, ci := range core.Calls(fn, rDel) {
+			dels = append(dels, ci.(ssa.Instruction))
+		}
+		var lkErr []ssa.Value
+		for _, ci := range core.Calls(fn, p.Method(pkgPfcp, "LocalNode", "Sess")) {
+			if v := ci.Value(); v != nil {
+				for _, r := range *v.Referrers() {
+					if ex, ok := r.(*ssa.Extract); ok && ex.Index == 1 {
+						lkErr = append(lkErr, ex)
+					}
+				}
+			}
+		}
+		r := returnAvoiding(fn.Blocks[0], func(b *ssa.BasicBlock) bool {
+			for _, d := range dels {
+				if blockHas(b, d) {
+					return true
+				}
+			}
+			for _, e := range lkErr {
+				if core.NilKnownAt(b, e, false) {
+					return true
+				}
+			}
+			return false
+		})
+		pos := fn.Pos()
+		if r != nil {
+			pos = r.Pos()
+		}
+		c.Check(rule, "deletion-always-deletes", pos, r == nil, "every path through the deletion handler deletes the addressed session, except when the SEID lookup fails")
 	}
 	// SEID-0 report response
 	if fn := fnOf(c, rule, pkgPfcp, "PfcpServer", "handleSessionReportResponse"); fn != nil {
